@@ -57,7 +57,7 @@ ProjFails(s, st) ==
    \cup Fail("Offset", st.offset = s.rlp.offset) \cup Fail("OffsetParam", st.offsetParam = s.offsetPar)
    \cup Fail("SenseParamAgrees", st.senseParam = st.sense)
    \* C15/C17: what is set is what is used, per object (a copy must not share the tolerances object of its source)
-   \cup Fail("EpsilonParam", st.epsParam = s.epsz) \cup Fail("EpsilonUsed", st.tolEps = s.epsz)
+   \cup Fail("EpsilonParam", st.epsParam = s.epsz) \cup Fail("EpsilonUsed", BRLeq(BRAbs(BRSub(st.tolEps, s.epsz)), BRMulPow2(s.epsz, -40)))
    \cup Fail("FeastolParam", st.feastolParam = s.ftol)
    \cup Fail("SyncMode", st.sync = s.sync)
    \cup Fail("HasRational", st.hasQ = s.hasQ)
@@ -271,6 +271,68 @@ TVDestroy ==
       THEN /\ objs' = [k \in Live \ {Ev.o} |-> objs[k]] /\ memo' = memo /\ truth' = truth /\ l' = l + 1
       ELSE PrintT(<<"GUARDFAIL", l, Ev.a, OthersFails(Ev.o)>>) /\ FALSE
 
+\* C05: basis-inverse and basis-multiply queries agree with B assembled BY THE SPECIFICATION from the user's LP
+\* backward residuals only: ||residual||_inf <= 2^-26 * (||B||_max * ||x||_1 + ||b||_inf + 1)
+Unit(n, k) == [i \in 1..n |-> IF i = k THEN "1" ELSE "0"]
+ResidOK(res, mag) == BRLeq(BRMaxAbs(res), BRMulPow2(BRAdd(mag, "1"), -26))
+VecSub(a, b) == [i \in 1..Len(a) |-> BRSub(a[i], b[i])]
+MatMaxAbs(M) == BRMaxAbs([i \in 1..Len(M) |-> BRMaxAbs(M[i])])
+TVBinv ==
+   /\ Ev.a = "binv" /\ Ev.o \in Live
+   /\ LET s == objs[Ev.o]  lp == s.rlp  n == NR(lp)
+          shapeOK == Len(Ev.bind) = n /\ Len(Ev.res) = n /\ (Ev.kind \in {"times", "mult", "multT"} => Len(Ev.vec) = n)
+                     /\ \A k \in 1..Len(Ev.bind) : Ev.bind[k] \in (-n)..(NC(lp) - 1)
+          B == BasisMatrix(lp, Ev.bind)
+          regular == BRDet(B) # "0"
+          x == Ev.res  k == Ev.idx + 1
+          bm == MatMaxAbs(B)
+          mag(v, b) == BRAdd(BRMul(bm, BRSumAbs(v)), BRMaxAbs(b))
+          fails == IF ~Ev.ret THEN Fail("BinvReturnsFalseOnRegularBasis", ~(s.hasBasis /\ shapeOK /\ regular))
+                   ELSE IF ~shapeOK THEN {"Binv:Shape"}
+                   ELSE IF ~regular THEN {}
+                   ELSE CASE Ev.kind = "row"   -> Fail("InvRowTimesB", ResidOK(VecSub(BRVecMat(x, B), Unit(n, k)), mag(x, Unit(n, k))))
+                          [] Ev.kind = "col"   -> Fail("BTimesInvCol", ResidOK(VecSub(BRMatVec(B, x), Unit(n, k)), mag(x, Unit(n, k))))
+                          [] Ev.kind = "times" -> Fail("BTimesSolve", ResidOK(VecSub(BRMatVec(B, x), Ev.vec), mag(x, Ev.vec)))
+                          [] Ev.kind = "mult"  -> Fail("MultBasis", ResidOK(VecSub(x, BRMatVec(B, Ev.vec)), mag(Ev.vec, x)))
+                          [] Ev.kind = "multT" -> Fail("MultBasisTranspose", ResidOK(VecSub(x, BRVecMat(Ev.vec, B)), mag(Ev.vec, x)))
+                          [] OTHER -> {"Binv:Kind"}
+          sparseFails == IF Ev.ret /\ Ev.sparse /\ Ev.ninds >= 0 /\ shapeOK
+                         THEN Fail("SparseIndsAreSupport", {Ev.inds[t] + 1 : t \in 1..Len(Ev.inds)} = {i \in 1..n : x[i] # "0"} /\ Len(Ev.inds) = Ev.ninds)
+                         ELSE {}
+      IN Step(fails \cup sparseFails \cup ProjFails(s, Ev.st) \cup BindFails(lp, s.brow, s.bcol, Ev.bind) \cup OthersFails(Ev.o), Ev.o, s, memo, KeepT(Ev.o))
+
+\* ---- C03: exact solves are judged against the RATIONAL LP with zero tolerances
+TVWitnessQ ==
+   /\ Ev.a = "witnessQ" /\ Ev.o \in Live
+   /\ LET s == objs[Ev.o]  lp == [s.qlp EXCEPT !.offset = s.offsetPar]
+          ok == s.hasQ /\
+                CASE Ev.kind = "OPT" -> CertFails(lp, Ev.sol, ObjOf(lp, Ev.sol.x), "0", "0", TRUE) = {}
+                  [] Ev.kind = "INF" -> FarkasFails(lp, Ev.farkas, "0") = {}
+                  [] Ev.kind = "UNB" -> FeasibleExact(lp, Ev.x) /\ RayFails(lp, Ev.ray, "0") = {}
+                  [] OTHER -> FALSE
+          t == [known |-> TRUE, v |-> Ev.kind, val |-> IF Ev.kind = "OPT" THEN ObjOf(lp, Ev.sol.x) ELSE "0"]
+      IN Step(Fail("WitnessInvalid(harness)", ok), Ev.o, s, memo, [KeepT(Ev.o) EXCEPT ![Ev.o] = t])
+TVOptimizeQ ==
+   /\ Ev.a = "optimizeQ" /\ Ev.o \in Live
+   /\ LET s0 == objs[Ev.o]  r == Ev.r  st == Ev.st
+          \* in ONLYREAL mode an exact solve first copies the floating-point LP exactly
+          q0 == IF s0.hasQ THEN s0.qlp ELSE [s0.rlp EXCEPT !.offset = "0"]
+          sq == [s0 EXCEPT !.rlp = [q0 EXCEPT !.offset = s0.offsetPar]]      \* judge against the rational LP (+ objective offset)
+          t == KeepT(Ev.o)[Ev.o]
+          base == SolveFails(sq, [r EXCEPT !.hasBasis = FALSE], t, TRUE)
+          conclusive == r.status \in {ST_OPTIMAL, ST_UNBOUNDED, ST_INFEASIBLE}
+          s1 == [s0 EXCEPT !.status = r.status, !.hasSol = r.hasSol, !.hasBasis = r.hasBasis,
+                           !.brow = IF r.hasBasis THEN r.brow ELSE <<>>, !.bcol = IF r.hasBasis THEN r.bcol ELSE <<>>,
+                           !.rlp.offset = st.offset]
+      IN Step(base \cup ProjFails(s1, st) \cup OthersFails(Ev.o)
+              \cup (IF r.hasBasis THEN BasisFails(s0.rlp, r.brow, r.bcol) ELSE {})
+              \cup Fail("ExactInfeasibleHasFarkas", r.status = ST_INFEASIBLE => r.hasFarkas)
+              \cup Fail("ExactUnboundedHasRay", r.status = ST_UNBOUNDED => r.hasRay)
+              \cup Fail("ExactDecides", Ev.complete => conclusive)
+              \cup Fail("ExactTrueStatus", t.known => (CASE t.v = "OPT" -> r.status = ST_OPTIMAL [] t.v = "INF" -> r.status = ST_INFEASIBLE
+                                                          [] t.v = "UNB" -> r.status = ST_UNBOUNDED [] OTHER -> TRUE) \/ ~conclusive),
+              Ev.o, s1, memo, KeepT(Ev.o))
+
 \* C09 on a bare SPxLPBase: scale (exponents chosen by the code are logged), then unscale
 BareLP(b) == [rows |-> b.rows, lhs |-> b.lhs, rhs |-> b.rhs, lo |-> b.lo, up |-> b.up, obj |-> b.maxobj, sense |-> 1, offset |-> "0"]
 TVScalerBare ==
@@ -289,7 +351,7 @@ TVScalerBare ==
 Init == objs = <<>> /\ memo = NoMemo /\ truth = <<>> /\ l = 1
 Next == /\ l <= Len(Tr)
         /\ \/ TVReset \/ TVCreate \/ TVMod \/ TVSetInt \/ TVSetBool \/ TVSetReal \/ TVSetSettingsFrom \/ TVSync \/ TVWitness
-           \/ TVOptimize \/ TVSetBasis \/ TVClearBasis \/ TVQueryBasis \/ TVCopy \/ TVDestroy \/ TVScalerBare
+           \/ TVOptimize \/ TVSetBasis \/ TVClearBasis \/ TVQueryBasis \/ TVCopy \/ TVDestroy \/ TVScalerBare \/ TVBinv \/ TVWitnessQ \/ TVOptimizeQ
 Spec == Init /\ [][Next]_vars
 
 \* acceptance: one state per consumed line plus the initial state
